@@ -3,8 +3,8 @@
 Read with Python `ast` (the repo code is NOT executed).  Extracted: the format strings and the layout
 constants of the bulk-data writers, and the slicing constants of the card reader.
 
-  wtdmig          the three `f.write(f"...")` templates (header card, `DMIG*` column card, `*` row line), the value
-                  templates `num_str = f"{num:16.9E}"` / `f"{num.real:16.9E}{num.imag:16.9E}"`, `.replace("E", "D")`,
+  wtdmig          the three `f.write(f"...")` templates (header card, `DMIG*` column card, `*` row line), the value field
+                  `_dmig_field` (`f"{num:16.9E}"`, the fallback `f"{num:16.8E}"` when `len(s) > 16`), `.replace("E", "D")`,
                   `start_row = col if form == 6 else 0`, the form numbers 9 / 2 / 6 / 1 and `ncol = colids.max()`
   wtnasints       `firstline = 10 - start`, `while n >= i + 8`, the field / lead templates
   wtcsuper        the prefix f-string and the start field handed to wtnasints;  wtextrn likewise
@@ -226,14 +226,29 @@ def extract(repo):
     if [p[5] for p in T["dmigRowLine"][0] if p[0] == "fld"] != ["'*'", "gi", "ci", "num_str"]:
         raise Unparsable("wtdmig: row line fields changed")
     vals = _assigns(fn, "num_str")
-    if len(vals) != 3:
-        raise Unparsable("wtdmig: expected three assignments to num_str")
-    T["dmigReal"] = _lines(_tpl(vals[0], {}, "wtdmig num_str"), "wtdmig")
-    T["dmigComplex"] = _lines(_tpl(vals[1], {}, "wtdmig num_str"), "wtdmig")
-    if [p[5] for p in T["dmigReal"][0]] != ["num"] or [p[5] for p in T["dmigComplex"][0]] != ["num.real", "num.imag"]:
-        raise Unparsable("wtdmig: value templates do not format num / num.real, num.imag")
-    if ast.unparse(vals[2]) != "num_str.replace('E', 'D')":
-        raise Unparsable("wtdmig: the third num_str assignment is not num_str.replace('E', 'D')")
+    if [ast.unparse(v) for v in vals] != ["_dmig_field(num)", "_dmig_field(num.real) + _dmig_field(num.imag)",
+                                          "num_str.replace('E', 'D')"]:
+        raise Unparsable("wtdmig: num_str is not _dmig_field(num) / _dmig_field(num.real) + _dmig_field(num.imag) / "
+                         "num_str.replace('E', 'D')")
+    # the value field: `s = f"{num:16.9E}"`, and `s = f"{num:16.8E}"` when `len(s) > 16` (fix 4411a34, finding F64)
+    ff = _func(tree, "_dmig_field")
+    if [a.arg for a in ff.args.args] != ["num"]:
+        raise Unparsable("_dmig_field: parameters changed")
+    body = [st for st in ff.body if not (isinstance(st, ast.Expr) and isinstance(st.value, ast.Constant))]
+    ok = (len(body) == 3 and isinstance(body[0], ast.Assign) and ast.unparse(body[0].targets[0]) == "s"
+          and isinstance(body[1], ast.If) and not body[1].orelse and len(body[1].body) == 1
+          and isinstance(body[1].body[0], ast.Assign) and ast.unparse(body[1].body[0].targets[0]) == "s"
+          and isinstance(body[2], ast.Return) and ast.unparse(body[2].value) == "s")
+    if not ok:
+        raise Unparsable("_dmig_field is not `s = f'..'; if len(s) > W: s = f'..'; return s`")
+    m = re.match(r"^len\(s\) > (\d+)$", ast.unparse(body[1].test))
+    if not m:
+        raise Unparsable("_dmig_field: the test is not `len(s) > <int>`")
+    C["dmigFieldWidth"] = int(m.group(1))
+    T["dmigField"] = _lines(_tpl(body[0].value, {}, "_dmig_field"), "_dmig_field")
+    T["dmigFieldFallback"] = _lines(_tpl(body[1].body[0].value, {}, "_dmig_field"), "_dmig_field")
+    if [p[5] for p in T["dmigField"][0]] != ["num"] or [p[5] for p in T["dmigFieldFallback"][0]] != ["num"]:
+        raise Unparsable("_dmig_field: the templates do not format num")
     _has(fn, r"if mtype & 1 == 0:", "wtdmig double-precision test", 1)
     _has(fn, r"if mtype < 3:", "wtdmig real/complex test", 1)
     C["dmigSymForm"] = _int_in(fn, r"^start_row = col if form == (\d+) else 0$", "wtdmig start_row")
@@ -396,11 +411,11 @@ def extract(repo):
 # ---------------------------------------------------------------------------------------------
 # rendering
 
-T_ORDER = ["dmigHeader", "dmigColCard", "dmigRowLine", "dmigReal", "dmigComplex", "nasintsLead", "nasintsField",
+T_ORDER = ["dmigHeader", "dmigColCard", "dmigRowLine", "dmigField", "dmigFieldFallback", "nasintsLead", "nasintsField",
            "csuperPrefix", "extrnPrefix", "setHeadTok", "setThruTok", "setOneTok", "gridWideShort", "gridSmallShort",
            "gridWideLong", "gridSmallLong", "tabWideHead", "tabWideLead", "tabWideLine", "tabSmallHead", "tabSmallLead",
            "tabSmallLine", "tabEnd", "cordComment", "cordLine1", "cordLine2", "cordLine3"]
-C_ORDER = ["dmigSymForm", "dmigFormSingle", "dmigFormRect", "dmigFormSymW", "dmigFormSquare", "nasintsFirst", "nasintsPerLine",
+C_ORDER = ["dmigFieldWidth", "dmigSymForm", "dmigFormSingle", "dmigFormRect", "dmigFormSymW", "dmigFormSquare", "nasintsFirst", "nasintsPerLine",
            "csuperStart", "extrnStart", "thruFlush", "setMaxLength", "tabWidePerLine", "tabSmallPerLine", "cordNoiseExp",
            "rdLineLen", "rdNameLen", "rdWideField", "rdSmallField", "rdWideInc", "rdSmallInc", "rdCommaTokens", "rdCommaInc"]
 S_ORDER = ["gridDefaultForm", "tabDefaultForm", "tabDefaultName", "conComma", "conWide", "conSmall"]
